@@ -1570,9 +1570,6 @@ KNOWN_PROBES: T.List[ProbeT] = [
     ('effect/kwargs-set:backslash-interpreted', 'string value with a backslash given to kwargs set',
      lambda: mk(_prog('install: true'), [{'type': 'kwargs', 'function': 'target', 'id': 'prog', 'operation': 'set',
                                           'kwargs': {'install_dir': 'C:\\tools\\bin'}, '_allowed': [[BUILD_FILE, 1]]}])),
-    ('effect/kwargs-set:cli-bool-false', '`kwargs set target prog install false` on the command line',
-     lambda: mk(_prog('install: true'), [{'mode': 'cli', 'cmds': [{'type': 'kwargs', 'function': 'target', 'id': 'prog', 'operation': 'set',
-                                                                  'kwargs': {'install': 'false'}, '_allowed': [[BUILD_FILE, 1]]}]}])),
     ('reprint/string-multiline', "triple-quoted string with trailing blanks and an empty line in a re-printed call",
      lambda: _add(_prog("install_rpath: '''a  \n\nb'''"), 1)),
     ('effect/add:foreign-list-extended', 'src_add to a target whose source list mentions a list variable in a ternary condition',
@@ -1581,6 +1578,9 @@ KNOWN_PROBES: T.List[ProbeT] = [
 ]
 
 FIXED_PROBES: T.List[ProbeT] = [
+    ('effect/kwargs-set:cli-bool-false', '`kwargs set target prog install false` on the command line',
+     lambda: mk(_prog('install: true'), [{'mode': 'cli', 'cmds': [{'type': 'kwargs', 'function': 'target', 'id': 'prog', 'operation': 'set',
+                                                                  'kwargs': {'install': 'false'}, '_allowed': [[BUILD_FILE, 1]]}]}])),
     ('reprint/parens-not', 'parens under `not`',
      lambda: _add(_prog('install: not (flag and false)', ['flag = true\n']), 2)),
     ('reprint/parens-uminus', 'parens under unary minus',
